@@ -172,6 +172,12 @@ func (g *vfGen) genC13() {
 		}
 		one := g.table(delim, 1, rows, nl, false)
 		g.emit(vfOp("lines", kind+"-one", []byte(one), 0))
+		// a first line with fewer fields than the rest (spreadsheet hint lines, titles): ragged like any other
+		for _, first := range []string{"sep=" + delim, "sep=" + delim + " ", "SEP=" + delim, "sep=;", "title", "\"sep=" + delim + "\"", "#!csv", "x" + delim + "y" + delim + "z" + delim + "w" + delim + "v" + delim + "u" + delim + "t"} {
+			h := first + nl + t
+			g.emit(vfOp("lines", "any", []byte(h), 0))
+			g.emit(vfOp("lines", "any", []byte(h), len(h)))
+		}
 		// NDJSON streams
 		var lines []string
 		k := 3 + g.intn(4)
